@@ -55,6 +55,9 @@ def run(ctx):
 
     check_grouping(ctx, setup)
     check_gbp_schedule(ctx)
+    from ._generic import measurement_keys_kept
+    for name_, m_ in sorted(repo.methods(LI, 'LocalInference').items()):
+        measurement_keys_kept(ctx, m_, 'projection-order')
 
     # ---- dispatch: oracle name -> constructed class --------------------------------------
     dispatch = {}
